@@ -1,7 +1,7 @@
 (* Proofs for C04: the 16 gate ids mean the same function in every representation. *)
 From Coq Require Import ZArith List Bool Reals Lra Psatz String.
 From TLX Require Import Model.Bits Model.Poly Proofs.BitsFacts.
-From TLX Require Import Gen.Ops Gen.GateCode Gen.Tables.
+From TLX Require Import Gen.Ops Gen.GateCode.
 Import ListNotations.
 
 Definition peval_R := peval Rplus Rminus Rmult IZR.
@@ -136,16 +136,3 @@ Definition name_ok (g : nat) : bool :=
 
 Lemma names_ok : List.length gate_names = 16%nat /\ forallb name_ok (seq 0 16) = true.
 Proof. split; vm_compute; reflexivity. Qed.
-
-(* ---- documented tables *)
-Definition table_of_tt : list (nat * (bool * bool * bool * bool)) :=
-  map (fun g => (g, (tt g false false, tt g false true, tt g true false, tt g true true))) (seq 0 16).
-
-Lemma docs_table_ok : docs_table = table_of_tt. Proof. vm_compute. reflexivity. Qed.
-(* the worded columns of the documented table (operation, name, formula), rendered as Boolean functions by the translator *)
-Definition worded_ok (r : nat * list (bool -> bool -> bool)) : bool :=
-  forallb (fun f => forallb (fun a => forallb (fun b => Bool.eqb (f a b) (tt (fst r) a b)) [false; true]) [false; true]) (snd r)
-  && (2 <=? List.length (snd r))%nat.
-Lemma docs_worded_ok : map fst docs_worded = seq 0 16 /\ forallb worded_ok docs_worded = true.
-Proof. split; vm_compute; reflexivity. Qed.
-Lemma comment_table_ok : comment_table = table_of_tt. Proof. vm_compute. reflexivity. Qed.
